@@ -130,7 +130,7 @@ def markup_cases():
 
 
 def search():
-    hit = markup_cases() or leak_cases() or preprocessor_exit_case() or command_line_run() or cyclic_submodule() or name_allocation_case()
+    hit = markup_cases() or leak_cases() or preprocessor_exit_case() or command_line_run() or cyclic_submodule() or self_extending_type() or name_allocation_case()
     if hit:
         return hit
     try:
@@ -321,6 +321,28 @@ def cyclic_submodule():
         if label == "its own parent" and "m_bad.f90" not in msg and "m_bad" not in msg:
             return {"confirmed": True, "input": {"case": label, "file": files["src/m_bad.f90"]}, "actual": msg[-300:], "expected": "a diagnostic that names m_bad.f90 (or a normal run)",
                     "how": "Project(...) + correlate() with default settings"} if "Error" in msg or "Traceback" in msg else None
+    return None
+
+
+def self_extending_type():
+    """a parseable file with a type that names itself (or a descendant) as its parent, and a call through an object of that type: FORD terminates and the other files are
+    documented as without it"""
+    for label, text in (("extends itself", "module bad\n  type, extends(selfish) :: selfish\n    integer :: n\n  contains\n    procedure :: foo\n  end type selfish\ncontains\n  subroutine foo(self)\n    class(selfish) :: self\n"
+                                            "  end subroutine foo\n  subroutine use_it()\n    type(selfish) :: x\n    call x%foo()\n  end subroutine use_it\nend module bad\n"),):
+        files = dict(GOOD)
+        files["src/m_bad.f90"] = text
+        try:
+            with watchdog(60):
+                ref_tree, ref_ids, _ = build(dict(GOOD))
+                tree, ids, log = build(files)
+        except Timeout:
+            return {"confirmed": True, "input": {"case": label, "file": text}, "actual": "no termination within 60 s", "expected": "terminates", "how": "watchdog around Project(...) + correlate()"}
+        except Exception as e:
+            return {"confirmed": True, "input": {"case": label, "file": text}, "actual": f"{type(e).__name__}: {e}", "expected": "the run goes on", "how": "Project(...) + correlate() with default settings"}
+        lost = [x for x in ref_ids if x not in ids]
+        if lost:
+            return {"confirmed": True, "input": {"case": label, "file": text}, "actual": {"entities of the valid files that are missing or renamed": lost[:5]}, "expected": "as without the file",
+                    "how": "Project(...) + correlate() with and without the file"}
     return None
 
 
